@@ -4,6 +4,14 @@ import SquidModel.Properties.C14
 #print axioms SquidModel.C14.not_modified_only_if
 #print axioms SquidModel.C14.not_modified_names_the_entity_tag
 #print axioms SquidModel.C14.full_response_otherwise
+#print axioms SquidModel.C14.hit_answer_eq_reference
+#print axioms SquidModel.C14.has_one_of_etags_eq_reference
+#print axioms SquidModel.C14.history_sound_partial
+#print axioms SquidModel.C14.step_sound_partial
+#print axioms SquidModel.C14.foreign_validator_counterexample
+#print axioms SquidModel.C14.content_length_counterexample
+#print axioms SquidModel.C14.if_match_stale_if_error_counterexample
+#print axioms SquidModel.C14.missed_304_after_revalidation
 #print axioms SquidModel.C14.updated_headers_are_the_304s
 #print axioms SquidModel.C14.unnamed_headers_unchanged
 #print axioms SquidModel.C14.exempt_headers_unchanged
